@@ -198,6 +198,7 @@ class Scripted(Problem):
         self.pending = None
         self.rcur = [Fraction(0)] * dim
         self.nkt = 0
+        self.overrun = 0
         self.memo = {}
 
     def Fext(self, inc):
@@ -233,8 +234,12 @@ class Scripted(Problem):
                 resid = [mult * x for x in self.rcur]
             else:
                 if self.pos >= len(self.script):
-                    raise ScriptExhausted()
-                kind, val = self.script[self.pos]
+                    # the behaviour this script was cut from has ended but the driver goes on (a driver that
+                    # differs from the generating model, e.g. a repaired one): keep answering "equilibrium"
+                    kind, val = "r", 0
+                    self.overrun += 1
+                else:
+                    kind, val = self.script[self.pos]
                 self.pos += 1
                 if kind == "r":
                     r = Fraction(val, 2) * self.tol
@@ -254,7 +259,7 @@ class Scripted(Problem):
     def leftover(self):
         if self.linear:
             return 0
-        return len(self.script) - self.pos + (1 if self.pending is not None else 0)
+        return abs(len(self.script) - self.pos) + (1 if self.pending is not None else 0)
 
     def reevaluate(self, incs, cs):
         """max|fext(lambda) - fint(c, lambda)| of the user's callables at each reported pair; the script is
@@ -644,13 +649,13 @@ def mc_lattice(tier):
                     for mod, every, kt0 in ((True, 2, True), (True, 1, False), (False, 1, False), (False, 2, True)):
                         L.append(("t-%s-%s-%d-%s%d" % (init, minInc, mni, mod, every),
                                   S(init=init, minInc=minInc, maxNumIter=mni, mod=mod, every=every, kt0=kt0),
-                                  "scripted", 0, R5 if mni == 3 else R4, (), True, 60))
+                                  "scripted", 0, R5 if mni == 3 else R4, (), True, 30))
         for init in ((3, 10), (1, 1)):
             for mls in (1, 2, 3):
                 for mod in (True, False):
                     L.append(("t-ls-%s-%d-%s" % (init, mls, mod),
                               S(init=init, ls=True, maxIterLS=mls, mod=mod, minInc=(1, 8)), "scripted", 0, (0, 1, 4, 8),
-                              ("one", "two", "small", "flat", "third", "big"), True, 120))
+                              ("one", "two", "small", "flat", "third", "big"), True, 60))
         L.append(("t-above", S(init=(2, 1), minInc=(1, 8)), "scripted", 0, R4, (), True, 100))
         L.append(("t-above15", S(init=(3, 2), minInc=(1, 20), maxInc=(1, 4)), "scripted", 0, R4, (), True, 100))
         L.append(("t-slow", S(init=(1, 2), slow=(1, 2), maxNumIter=4, minInc=(1, 8)), "scripted", 0, (1, 4, 6, 8), (), True, 100))
@@ -660,8 +665,8 @@ def mc_lattice(tier):
         L.append(("t-maxinc", S(init=(1, 8), maxInc=(1, 4), minInc=(1, 16)), "scripted", 0, (1, 4, 8), (), True, 60))
         L.append(("t-dim2", S(minInc=(1, 8), maxNumIter=3), "scripted", 2, (1, 4, 8), (), False, 0))
         L.append(("t-dim2ls", S(minInc=(1, 4), ls=True, init=(1, 2)), "scripted", 2, (0, 4), ("one", "two", "third"), False, 0))
-        L.append(("t-deep", S(minInc=(1, 50)), "scripted", 0, R5, (), True, 250))
-        L.append(("t-deep1", S(init=(1, 1), minInc=(1, 30)), "scripted", 0, R5, (), True, 250))
+        L.append(("t-deep", S(minInc=(1, 50)), "scripted", 0, R5, (), True, 150))
+        L.append(("t-deep1", S(init=(1, 1), minInc=(1, 30)), "scripted", 0, R5, (), True, 150))
     # linear problems (deterministic, one behaviour each): the method switches
     if tier == "quick":
         lin = [((3, 10), False, True, 2, True), ((3, 10), True, False, 1, False), ((1, 1), True, True, 2, True),
@@ -687,7 +692,7 @@ def spring_lattice(tier, rng):
             S(init=(1, 1), minInc=(1, 50), tol=(1, 512), maxNumIter=6, every=3, ls=True, maxIterLS=4, mod=True, kt0=True),
             S(init=(7, 10), minInc=(1, 200), maxInc=(1, 5), tol=(1, 100), maxNumIter=8, every=2, ls=False, mod=True),
             S(init=(5, 4), minInc=(1, 64), tol=(1, 256), maxNumIter=5, every=2, ls=True, maxIterLS=3, mod=False)]
-    per = 4 if tier == "quick" else 24
+    per = 4 if tier == "quick" else 16
     for s in sets:
         for _ in range(per):
             a2 = rng.choice([0, 0, -1.5, -1.0, -0.75, -2.0])
